@@ -122,7 +122,11 @@ fn shape_to_geo(case: &str, ty: i32, i: usize, ctx: &Ctx, rep: &mut Report) {
                 input.push((kind, pts.iter().map(|p| vertex(p.0, p.1, &mut r, &zm)).collect()));
             }
         }
-        (build_from_parts(ty, &input, false), stars)
+        // the way back is defined for every outer-first polygon of the exact pool: rings with a
+        // non-zero exact area are kept by every constructor pass, zero-area rings are reversed by
+        // an even number of passes (degenerate holes: bow-ties, slits, repeated points included)
+        let _ = stars;
+        (build_from_parts(ty, &input, false), true)
     } else {
         // every third case on the tiny integer grid: consecutive vertices sharing X and Y, repeated
         // points and zero-length segments are the rule there
